@@ -1,15 +1,1346 @@
 package core
 
-import (
-	"fmt"
-	"testing"
+// W1 "pathworld": the real pathManager / path / stream / staticsources.Handler /
+// forward.Manager / hooks / externalcmd code driven by protocol-shaped client
+// actors, a simulated pulled source, simulated forwarders and simulated hook
+// processes, under the simrt scheduler. This file is instrumented by goinst
+// like the rest of package core.
 
+import (
+	"context"
+	"encoding/json"
+	"fmt"
+	"math/rand"
+	"net"
+	"os"
+	"path/filepath"
+	"sort"
+	"strings"
+	"sync"
+	"sync/atomic"
+	"testing"
+	"time"
+
+	"github.com/bluenviron/gortsplib/v5/pkg/description"
+	"github.com/bluenviron/gortsplib/v5/pkg/format"
+	"github.com/google/uuid"
+
+	"github.com/bluenviron/mediamtx/internal/auth"
+	"github.com/bluenviron/mediamtx/internal/conf"
+	"github.com/bluenviron/mediamtx/internal/defs"
+	"github.com/bluenviron/mediamtx/internal/externalcmd"
+	fwrtmp "github.com/bluenviron/mediamtx/internal/forward/rtmp"
+	"github.com/bluenviron/mediamtx/internal/logger"
+	ssrtp "github.com/bluenviron/mediamtx/internal/staticsources/rtp"
+	"github.com/bluenviron/mediamtx/internal/stream"
+	"github.com/bluenviron/mediamtx/internal/unit"
 	"github.com/bluenviron/mediamtx/internal/zzsim/simrt"
 )
 
-func simWorldMain(t *testing.T) {
-	res := simrt.Run(t, simrt.Config{Seed: 1, Strategy: "random", LogEvents: true}, func() {
-		simrt.Event("hello")
+func simWorldMain(t *testing.T) { simrt.WorkerMain(t, &w1World{}) }
+
+// ---------------------------------------------------------------------------
+// scenario
+
+type w1Perm struct {
+	Action string `json:"action"`
+	Path   string `json:"path"`
+}
+
+type w1User struct {
+	User  string   `json:"user"`
+	Pass  string   `json:"pass"`
+	IPs   []string `json:"ips,omitempty"`
+	Perms []w1Perm `json:"perms"`
+}
+
+type w1Path struct {
+	Name           string   `json:"name"`
+	Source         string   `json:"source"` // publisher | sim | redirect
+	SrcTag         string   `json:"src_tag,omitempty"`
+	OnDemand       bool     `json:"on_demand,omitempty"`
+	StartTimeoutMs int64    `json:"start_timeout_ms,omitempty"`
+	CloseAfterMs   int64    `json:"close_after_ms,omitempty"`
+	MaxReaders     int      `json:"max_readers,omitempty"`
+	Override       bool     `json:"override,omitempty"`
+	Forward        []string `json:"forward,omitempty"`
+	Hooks          []string `json:"hooks,omitempty"` // init initR demand demandR undemand avail availR unavail online onlineR offline
+	Record         bool     `json:"record,omitempty"`
+}
+
+type w1Version struct {
+	Paths []w1Path `json:"paths"`
+	Users []w1User `json:"users"`
+}
+
+type w1Op struct {
+	Op string `json:"op"`
+	N  int64  `json:"n,omitempty"`
+	Ms int64  `json:"ms,omitempty"`
+}
+
+type w1Actor struct {
+	Kind       string `json:"kind"` // pub rd desc reload api
+	Path       string `json:"path,omitempty"`
+	User       string `json:"user,omitempty"`
+	Pass       string `json:"pass,omitempty"`
+	IP         string `json:"ip,omitempty"`
+	Shape      string `json:"shape,omitempty"`
+	StartMs    int64  `json:"start_ms,omitempty"`
+	Ops        []w1Op `json:"ops"`
+	Formats    []int  `json:"formats,omitempty"`
+	SlowMs     int64  `json:"slow_ms,omitempty"`
+	FailAt     int64  `json:"fail_at,omitempty"`
+	LateWrites int64  `json:"late_writes,omitempty"`
+}
+
+type w1Body struct {
+	QueueSize  int         `json:"queue_size"`
+	Versions   []w1Version `json:"versions"`
+	Actors     []w1Actor   `json:"actors"`
+	SrcFailP   float64     `json:"src_fail_p"`
+	SrcDialP   float64     `json:"src_dial_p"`
+	FwdFailP   float64     `json:"fwd_fail_p"`
+	HookExitP  float64     `json:"hook_exit_p"`
+	TailMs     int64       `json:"tail_ms"`
+	NoStallLiv bool        `json:"-"`
+}
+
+var w1HookKinds = []string{"init", "demand", "undemand", "avail", "unavail", "online", "offline"}
+
+func w1Pick[T any](rng *rand.Rand, xs ...T) T { return xs[rng.Intn(len(xs))] }
+
+// Gen builds a random scenario. The focus property biases the mix.
+func (w *w1World) Gen(rng *rand.Rand, property, tier string) (any, simrt.Sched) {
+	b := &w1Body{
+		QueueSize: w1Pick(rng, 1, 2, 4, 8, 8),
+		SrcFailP:  w1Pick(rng, 0, 0, 0.02, 0.1),
+		SrcDialP:  w1Pick(rng, 0, 0, 0.2, 0.5),
+		FwdFailP:  w1Pick(rng, 0, 0.1, 0.4),
+		HookExitP: w1Pick(rng, 0, 0.2, 0.5),
+	}
+	focus := property
+	users := []w1User{
+		{User: "admin", Pass: "adminpw", Perms: []w1Perm{{"publish", ""}, {"read", ""}}},
+		{User: "pubonly", Pass: "p1", Perms: []w1Perm{{"publish", ""}}},
+		{User: "rdonly", Pass: "r1", Perms: []w1Perm{{"read", ""}}},
+		{User: "s1only", Pass: "x1", Perms: []w1Perm{{"publish", "s1"}, {"read", "s1"}}},
+		{User: "ipuser", Pass: "ip1", IPs: []string{"10.0.0.0/8"}, Perms: []w1Perm{{"publish", ""}, {"read", ""}}},
+		{User: "rx", Pass: "rx1", Perms: []w1Perm{{"read", "~^r[0-9]+$"}}},
+	}
+	if rng.Intn(4) == 0 {
+		users = append(users, w1User{User: "any", Perms: []w1Perm{{"read", "s2"}}})
+	}
+
+	hooks := func() []string {
+		if focus != "C20" && focus != "C19" && focus != "C40" && rng.Intn(3) != 0 {
+			return nil
+		}
+		var hs []string
+		for _, k := range w1HookKinds {
+			if rng.Intn(3) != 0 {
+				hs = append(hs, k)
+				if (k == "init" || k == "demand" || k == "avail" || k == "online") && rng.Intn(3) == 0 {
+					hs = append(hs, k+"R")
+				}
+			}
+		}
+		return hs
+	}
+	fwd := func() []string {
+		if focus != "C39" && focus != "C40" && rng.Intn(4) != 0 {
+			return nil
+		}
+		n := rng.Intn(4)
+		var out []string
+		for i := 0; i < n; i++ {
+			out = append(out, fmt.Sprintf("d%d", rng.Intn(5)))
+		}
+		return out
+	}
+	tmo := func() int64 { return w1Pick[int64](rng, 50, 200, 1000, 3000, 10000) }
+	mkPath := func(name string) w1Path {
+		p := w1Path{Name: name, Source: "publisher"}
+		switch rng.Intn(10) {
+		case 0, 1, 2:
+			p.Source = "sim"
+			p.SrcTag = name
+			p.OnDemand = rng.Intn(3) != 0
+		case 3:
+			if !strings.HasPrefix(name, "~") && name != "all_others" {
+				p.Source = "redirect"
+			}
+		}
+		if strings.HasPrefix(name, "~") || name == "all_others" {
+			if p.Source == "sim" {
+				p.OnDemand = true // regexp paths with static sources must be on demand
+			}
+		}
+		if focus == "C19" && rng.Intn(2) == 0 && p.Source != "redirect" {
+			if rng.Intn(2) == 0 {
+				p.Source, p.SrcTag, p.OnDemand = "sim", name, true
+			}
+		}
+		p.StartTimeoutMs, p.CloseAfterMs = tmo(), tmo()
+		if rng.Intn(3) == 0 || focus == "C18" {
+			p.MaxReaders = 1 + rng.Intn(3)
+		}
+		p.Override = rng.Intn(2) == 0
+		p.Forward = fwd()
+		p.Hooks = hooks()
+		if p.Source == "publisher" && (focus == "C19" || focus == "C20") && rng.Intn(2) == 0 {
+			has := false
+			for _, h := range p.Hooks {
+				if h == "demand" {
+					has = true
+				}
+			}
+			if !has {
+				p.Hooks = append(p.Hooks, "demand")
+			}
+		}
+		return p
+	}
+
+	names := []string{"s1"}
+	if rng.Intn(2) == 0 {
+		names = append(names, "s2")
+	}
+	if rng.Intn(2) == 0 {
+		names = append(names, w1Pick(rng, "~^r([0-9]+)$", "~^(r|q)([0-9]+)$"))
+	}
+	if rng.Intn(3) == 0 {
+		names = append(names, "all_others")
+	}
+	v0 := w1Version{Users: users}
+	for _, n := range names {
+		v0.Paths = append(v0.Paths, mkPath(n))
+	}
+	b.Versions = []w1Version{v0}
+
+	// further versions: mutate the previous one
+	nver := rng.Intn(3)
+	if focus == "C15" || focus == "C39" || focus == "C03" {
+		nver = 1 + rng.Intn(3)
+	}
+	for i := 0; i < nver; i++ {
+		prev := b.Versions[len(b.Versions)-1]
+		nv := w1Version{Users: prev.Users}
+		raw, _ := json.Marshal(prev.Paths)
+		json.Unmarshal(raw, &nv.Paths)
+		nm := 1 + rng.Intn(2)
+		for j := 0; j < nm; j++ {
+			if len(nv.Paths) == 0 {
+				nv.Paths = append(nv.Paths, mkPath("s1"))
+				continue
+			}
+			k := rng.Intn(len(nv.Paths))
+			p := &nv.Paths[k]
+			switch rng.Intn(10) {
+			case 0, 1, 2: // hot: forward list
+				switch rng.Intn(4) {
+				case 0:
+					p.Forward = append(p.Forward, fmt.Sprintf("d%d", rng.Intn(5)))
+				case 1:
+					if len(p.Forward) > 0 {
+						p.Forward = p.Forward[:len(p.Forward)-1]
+					}
+				case 2:
+					if len(p.Forward) > 0 {
+						p.Forward[rng.Intn(len(p.Forward))] = fmt.Sprintf("d%d", 5+rng.Intn(3))
+					}
+				default:
+					if len(p.Forward) > 1 {
+						x := rng.Intn(len(p.Forward))
+						p.Forward = append(p.Forward[:x:x], p.Forward[x+1:]...)
+					} else {
+						p.Forward = append(p.Forward, "d9")
+					}
+				}
+			case 3: // cold: maxReaders
+				p.MaxReaders = (p.MaxReaders + 1) % 4
+			case 4: // cold: override
+				p.Override = !p.Override
+			case 5: // remove the configuration
+				nv.Paths = append(nv.Paths[:k:k], nv.Paths[k+1:]...)
+			case 6: // add a configuration
+				cand := w1Pick(rng, "s2", "s3", "~^r([0-9]+)$", "~^(r|q)([0-9]+)$", "all_others", "r7")
+				dup := false
+				for _, q := range nv.Paths {
+					if q.Name == cand {
+						dup = true
+					}
+				}
+				if !dup {
+					nv.Paths = append(nv.Paths, mkPath(cand))
+				}
+			case 7: // rename a regexp keeping its other fields (capture groups change)
+				if strings.HasPrefix(p.Name, "~") {
+					cand := w1Pick(rng, "~^r([0-9]+)$", "~^(r|q)([0-9]+)$", "~^(r)([0-9]+)$")
+					dup := false
+					for _, q := range nv.Paths {
+						if q.Name == cand {
+							dup = true
+						}
+					}
+					if !dup {
+						p.Name = cand
+						if p.Source == "sim" {
+							p.SrcTag = cand
+						}
+					}
+				}
+			case 8: // cold: timeouts
+				p.CloseAfterMs = tmo()
+			default: // hot: record flag stays off; toggle a hook (cold)
+				if len(p.Hooks) > 0 {
+					p.Hooks = p.Hooks[:len(p.Hooks)-1]
+				} else {
+					p.Hooks = []string{"init"}
+				}
+			}
+		}
+		if rng.Intn(3) == 0 {
+			// change the user list: drop the last user or change a password
+			us := append([]w1User(nil), nv.Users...)
+			if rng.Intn(2) == 0 && len(us) > 1 {
+				us = us[:len(us)-1]
+			} else {
+				us[0].Pass = us[0].Pass + "x"
+			}
+			nv.Users = us
+		}
+		b.Versions = append(b.Versions, nv)
+	}
+
+	// actors
+	targets := []string{"s1", "s1", "s2", "r1", "r2", "q5", "zz", "s3", "r7"}
+	creds := [][3]string{
+		{"admin", "adminpw", "127.0.0.1"}, {"admin", "adminpw", "127.0.0.1"}, {"admin", "adminpw", "127.0.0.1"},
+		{"pubonly", "p1", "127.0.0.1"}, {"rdonly", "r1", "127.0.0.1"}, {"s1only", "x1", "127.0.0.1"},
+		{"ipuser", "ip1", "10.1.2.3"}, {"ipuser", "ip1", "192.168.1.1"}, {"rx", "rx1", "::1"},
+		{"admin", "wrong", "127.0.0.1"}, {"", "", "127.0.0.1"},
+	}
+	if focus != "C03" {
+		// mostly valid credentials so that the workload makes progress
+		creds = append(creds, creds[0], creds[0], creds[0], creds[0], creds[0], creds[0])
+	}
+	maxT := int64(0)
+	addActor := func(a w1Actor) {
+		c := w1Pick(rng, creds...)
+		a.User, a.Pass, a.IP = c[0], c[1], c[2]
+		a.StartMs = w1Pick[int64](rng, 0, 0, 1, 10, 100, 500, 2000)
+		b.Actors = append(b.Actors, a)
+	}
+	gap := func() int64 { return w1Pick[int64](rng, 0, 1, 10, 50, 200, 1000, 3000) }
+	npub := 1 + rng.Intn(3)
+	if focus == "C16" {
+		npub = 2 + rng.Intn(2)
+	}
+	tgt := func() string {
+		if focus == "C16" || focus == "C17" || focus == "C18" {
+			return w1Pick(rng, "s1", "s1", "s1", "r1")
+		}
+		return w1Pick(rng, targets...)
+	}
+	for i := 0; i < npub; i++ {
+		a := w1Actor{Kind: "pub", Path: tgt(), Shape: w1Pick(rng, "2phase", "2phase", "1phase"),
+			LateWrites: int64(rng.Intn(4))}
+		ns := 1 + rng.Intn(2)
+		for s := 0; s < ns; s++ {
+			a.Ops = append(a.Ops, w1Op{Op: "session", N: int64(1 + rng.Intn(12)), Ms: w1Pick[int64](rng, 0, 1, 10, 100, 500)})
+			a.Ops = append(a.Ops, w1Op{Op: "sleep", Ms: gap()})
+		}
+		addActor(a)
+	}
+	nrd := 1 + rng.Intn(4)
+	if focus == "C18" {
+		nrd = 3 + rng.Intn(3)
+	}
+	for i := 0; i < nrd; i++ {
+		a := w1Actor{Kind: "rd", Path: tgt(), Shape: w1Pick(rng, "1phase", "1phase", "rtsp", "hls"),
+			Formats: w1Pick(rng, []int{0, 1}, []int{0}, []int{1}, []int{0, 1})}
+		if rng.Intn(3) == 0 {
+			a.SlowMs = w1Pick[int64](rng, 1, 50, 400, 2000)
+		}
+		if rng.Intn(6) == 0 {
+			a.FailAt = int64(1 + rng.Intn(5))
+		}
+		ns := 1 + rng.Intn(3)
+		for s := 0; s < ns; s++ {
+			a.Ops = append(a.Ops, w1Op{Op: "session", Ms: w1Pick[int64](rng, 10, 200, 1000, 5000, 12000), N: int64(rng.Intn(3))})
+			a.Ops = append(a.Ops, w1Op{Op: "sleep", Ms: gap()})
+		}
+		addActor(a)
+	}
+	ndesc := rng.Intn(3)
+	for i := 0; i < ndesc; i++ {
+		a := w1Actor{Kind: "desc", Path: tgt()}
+		for s := 0; s < 1+rng.Intn(3); s++ {
+			a.Ops = append(a.Ops, w1Op{Op: "describe", Ms: gap()})
+		}
+		addActor(a)
+	}
+	if len(b.Versions) > 1 {
+		a := w1Actor{Kind: "reload", StartMs: w1Pick[int64](rng, 0, 50, 500, 3000)}
+		nre := 1 + rng.Intn(4)
+		for s := 0; s < nre; s++ {
+			a.Ops = append(a.Ops, w1Op{Op: "reload", N: int64(rng.Intn(len(b.Versions))), Ms: w1Pick[int64](rng, 0, 0, 1, 100, 2000)})
+		}
+		a.Ops = append(a.Ops, w1Op{Op: "reload", N: int64(len(b.Versions) - 1)})
+		b.Actors = append(b.Actors, a)
+	}
+	napi := rng.Intn(3)
+	if focus == "C40" {
+		napi = 1 + rng.Intn(2)
+	}
+	for i := 0; i < napi; i++ {
+		a := w1Actor{Kind: "api", StartMs: gap()}
+		for s := 0; s < 2+rng.Intn(5); s++ {
+			a.Ops = append(a.Ops, w1Op{Op: w1Pick(rng, "list", "get", "fwd"), Ms: gap()})
+		}
+		b.Actors = append(b.Actors, a)
+	}
+	_ = maxT
+	// epilogue: longer than any timeout + retry pause
+	b.TailMs = 10000 + 5000 + 10000 + 2000
+
+	sched := simrt.DefaultSched(rng)
+	return b, sched
+}
+
+// ---------------------------------------------------------------------------
+// harness
+
+type w1World struct{}
+
+type w1ConfSet struct {
+	conf  *conf.Conf
+	paths map[string]*conf.Path
+}
+
+type w1Harness struct {
+	body     *w1Body
+	prop     string
+	dir      string
+	versions []*w1ConfSet
+	pm       *pathManager
+	pool     *externalcmd.Pool
+	authm    *auth.Manager
+	medias   []*description.Media
+	nextSrc   atomic.Int64
+	procSeq   atomic.Int64
+	fwdSeq    atomic.Int64
+	lastConfs map[string]*conf.Path
+}
+
+func (h *w1Harness) Log(level logger.Level, format string, args ...any) {
+	simrt.Rec("log", fmt.Sprintf(format, args...), "", int64(level), 0, 0)
+}
+
+// authProxy records every Authenticate call.
+type w1AuthProxy struct{ m *auth.Manager }
+
+func (p *w1AuthProxy) Authenticate(req *auth.Request) (string, *auth.Error) {
+	user, err := p.m.Authenticate(req)
+	id := ""
+	if req.ID != nil {
+		id = req.ID.String()
+	}
+	cr := ""
+	if req.Credentials != nil {
+		cr = req.Credentials.User + "|" + req.Credentials.Pass
+	}
+	ok := int64(1)
+	if err != nil {
+		ok = 0
+	}
+	act := int64(0)
+	if req.Action == conf.AuthActionPublish {
+		act = 1
+	}
+	simrt.Rec("auth", id+"|"+cr+"|"+req.IP.String(), req.Path, act, ok, 0)
+	return user, err
+}
+
+func w1HookCmd(kind string) string { return "simhook " + kind }
+
+func (h *w1Harness) renderYAML(v w1Version) string {
+	var sb strings.Builder
+	sb.WriteString("rtsp: no\nrtmp: no\nhls: no\nwebrtc: no\nsrt: no\nmoq: no\napi: no\nmetrics: no\npprof: no\nplayback: no\n")
+	fmt.Fprintf(&sb, "writeQueueSize: %d\n", h.body.QueueSize)
+	sb.WriteString("authInternalUsers:\n")
+	for _, u := range v.Users {
+		fmt.Fprintf(&sb, "- user: %q\n", u.User)
+		if u.Pass != "" {
+			fmt.Fprintf(&sb, "  pass: %q\n", u.Pass)
+		}
+		if len(u.IPs) > 0 {
+			fmt.Fprintf(&sb, "  ips: [%s]\n", strings.Join(u.IPs, ", "))
+		}
+		sb.WriteString("  permissions:\n")
+		for _, p := range u.Perms {
+			fmt.Fprintf(&sb, "  - action: %s\n", p.Action)
+			if p.Path != "" {
+				fmt.Fprintf(&sb, "    path: %q\n", p.Path)
+			}
+		}
+	}
+	sb.WriteString("paths:\n")
+	if len(v.Paths) == 0 {
+		sb.WriteString("  {}\n")
+	}
+	for _, p := range v.Paths {
+		fmt.Fprintf(&sb, "  %q:\n", p.Name)
+		switch p.Source {
+		case "sim":
+			fmt.Fprintf(&sb, "    source: udp+rtp://127.0.0.1:5000\n")
+			fmt.Fprintf(&sb, "    rtpSDP: %q\n", "simsrc "+p.SrcTag)
+			fmt.Fprintf(&sb, "    sourceOnDemand: %v\n", p.OnDemand)
+			fmt.Fprintf(&sb, "    sourceOnDemandStartTimeout: %dms\n", p.StartTimeoutMs)
+			fmt.Fprintf(&sb, "    sourceOnDemandCloseAfter: %dms\n", p.CloseAfterMs)
+		case "redirect":
+			sb.WriteString("    source: redirect\n    sourceRedirect: rtsp://other:8554/x\n")
+		default:
+			fmt.Fprintf(&sb, "    overridePublisher: %v\n", p.Override)
+		}
+		if p.MaxReaders != 0 {
+			fmt.Fprintf(&sb, "    maxReaders: %d\n", p.MaxReaders)
+		}
+		if len(p.Forward) > 0 {
+			sb.WriteString("    forward:\n")
+			for _, d := range p.Forward {
+				fmt.Fprintf(&sb, "    - dest: 'rtmp://sim/%s?p=$MTX_PATH'\n", d)
+			}
+		}
+		isRegexp := strings.HasPrefix(p.Name, "~") || p.Name == "all_others" || p.Name == "all"
+		for _, hk := range p.Hooks {
+			if isRegexp && (hk == "init" || hk == "initR") {
+				continue // not supported on regular-expression paths
+			}
+			switch hk {
+			case "init":
+				fmt.Fprintf(&sb, "    runOnInit: %s\n", w1HookCmd("init"))
+			case "initR":
+				sb.WriteString("    runOnInitRestart: yes\n")
+			case "demand":
+				if p.Source == "publisher" {
+					fmt.Fprintf(&sb, "    runOnDemand: %s\n", w1HookCmd("demand"))
+					fmt.Fprintf(&sb, "    runOnDemandStartTimeout: %dms\n", p.StartTimeoutMs)
+					fmt.Fprintf(&sb, "    runOnDemandCloseAfter: %dms\n", p.CloseAfterMs)
+				}
+			case "demandR":
+				if p.Source == "publisher" {
+					sb.WriteString("    runOnDemandRestart: yes\n")
+				}
+			case "undemand":
+				if p.Source == "publisher" {
+					fmt.Fprintf(&sb, "    runOnUnDemand: %s\n", w1HookCmd("undemand"))
+				}
+			case "avail":
+				fmt.Fprintf(&sb, "    runOnAvailable: %s\n", w1HookCmd("avail"))
+			case "availR":
+				sb.WriteString("    runOnAvailableRestart: yes\n")
+			case "unavail":
+				fmt.Fprintf(&sb, "    runOnUnavailable: %s\n", w1HookCmd("unavail"))
+			case "online":
+				fmt.Fprintf(&sb, "    runOnOnline: %s\n", w1HookCmd("online"))
+			case "onlineR":
+				sb.WriteString("    runOnOnlineRestart: yes\n")
+			case "offline":
+				fmt.Fprintf(&sb, "    runOnOffline: %s\n", w1HookCmd("offline"))
+			}
+		}
+	}
+	return sb.String()
+}
+
+func (h *w1Harness) loadVersions() error {
+	for i, v := range h.body.Versions {
+		fp := filepath.Join(h.dir, fmt.Sprintf("v%d.yml", i))
+		y := h.renderYAML(v)
+		if err := os.WriteFile(fp, []byte(y), 0o644); err != nil {
+			return err
+		}
+		c, _, err := conf.Load(fp, nil, nil)
+		if err != nil {
+			return fmt.Errorf("version %d: %w\n%s", i, err, y)
+		}
+		h.versions = append(h.versions, &w1ConfSet{conf: c, paths: c.Paths})
+	}
+	return nil
+}
+
+func w1UUID(kind byte, idx int) uuid.UUID {
+	var u uuid.UUID
+	u[0] = kind
+	u[1] = byte(idx)
+	u[6] = 0x40
+	u[8] = 0x80
+	return u
+}
+
+func w1Payload(pub int64, fm int, serial int64) []byte {
+	return []byte{byte(pub), byte(fm), byte(serial >> 24), byte(serial >> 16), byte(serial >> 8), byte(serial), 0xAA, 0x55}
+}
+
+func (h *w1Harness) mkDesc() *description.Session {
+	return &description.Session{Medias: []*description.Media{
+		{Type: description.MediaTypeAudio, Formats: []format.Format{&format.G711{PayloadTyp: 0, MULaw: true, SampleRate: 8000, ChannelCount: 1}}},
+		{Type: description.MediaTypeAudio, Formats: []format.Format{&format.LPCM{PayloadTyp: 96, BitDepth: 16, SampleRate: 8000, ChannelCount: 1}}},
+	}}
+}
+
+func w1WriteUnit(ss *stream.SubStream, desc *description.Session, who string, pub int64, fm int, serial int64, pts int64) {
+	medi := desc.Medias[fm]
+	forma := medi.Formats[0]
+	var pl unit.Payload
+	if fm == 0 {
+		pl = unit.PayloadG711(w1Payload(pub, fm, serial))
+	} else {
+		pl = unit.PayloadLPCM(w1Payload(pub, fm, serial))
+	}
+	simrt.Rec("write.begin", who, "", serial, int64(fm), pub)
+	ss.WriteUnit(medi, forma, &unit.Unit{PTS: pts, Payload: pl})
+	simrt.Rec("write.end", who, "", serial, int64(fm), pub)
+}
+
+// ---- publisher actor
+
+type w1Pub struct {
+	h      *w1Harness
+	idx    int
+	a      *w1Actor
+	name   string
+	id     uuid.UUID
+	closed *simrt.Signal
+}
+
+func (p *w1Pub) Log(level logger.Level, format string, args ...any) {}
+func (p *w1Pub) APISourceDescribe() *defs.APIPathSource {
+	return &defs.APIPathSource{Type: defs.APIPathSourceTypeRTMPConn, ID: p.id.String()}
+}
+func (p *w1Pub) Close() {
+	simrt.Rec("pub.close", p.name, "", 0, 0, 0)
+	p.closed.Fire()
+}
+
+func (h *w1Harness) accessReq(a *w1Actor, id *uuid.UUID, publish bool) defs.PathAccessRequest {
+	return defs.PathAccessRequest{
+		Name: a.Path, Query: "", Publish: publish, Proto: auth.ProtocolRTMP, ID: id,
+		Credentials: &auth.Credentials{User: a.User, Pass: a.Pass},
+		IP:          net.ParseIP(a.IP),
+	}
+}
+
+func (h *w1Harness) runPub(idx int, a *w1Actor) {
+	name := fmt.Sprintf("pub%d", idx)
+	time.Sleep(time.Duration(a.StartMs) * time.Millisecond)
+	serial := int64(0)
+	for si, op := range a.Ops {
+		if simrt.Aborted() {
+			return
+		}
+		if op.Op == "sleep" {
+			time.Sleep(time.Duration(op.Ms) * time.Millisecond)
+			continue
+		}
+		p := &w1Pub{h: h, idx: idx, a: a, name: name, id: w1UUID(1, idx*8+si), closed: simrt.NewSignal()}
+		simrt.Touch(p)
+		var confToCompare *conf.Path
+		skipAuth := false
+		if a.Shape == "2phase" {
+			simrt.Rec("pub.find.call", name, a.Path, 0, 0, 0)
+			res1, err := h.pm.FindPathConf(defs.PathFindPathConfReq{Author: p, AccessRequest: h.accessReq(a, &p.id, true)})
+			if err != nil {
+				simrt.Rec("pub.find.ret", name, a.Path, 0, 0, 0)
+				continue
+			}
+			simrt.Rec("pub.find.ret", name, a.Path, 1, 0, 0)
+			confToCompare = res1.Conf
+			skipAuth = true
+			// the protocol handshake takes a while
+			time.Sleep(time.Duration(w1DelayTable[(idx+si)%len(w1DelayTable)]) * time.Millisecond)
+		}
+		desc := h.mkDesc()
+		ar := h.accessReq(a, &p.id, true)
+		if skipAuth {
+			ar = defs.PathAccessRequest{Name: a.Path, Publish: true, SkipAuth: true}
+		}
+		sk := int64(0)
+		if skipAuth {
+			sk = 1
+		}
+		simrt.Rec("pub.add.call", name, a.Path, sk, 0, 0)
+		res2, err := h.pm.AddPublisher(defs.PathAddPublisherReq{
+			Author: p, Desc: desc, UseRTPPackets: false, ReplaceNTP: true,
+			ConfToCompare: confToCompare, AccessRequest: ar,
+		})
+		if err != nil {
+			simrt.Rec("pub.add.ret", name, a.Path, 0, 0, 0)
+			simrt.Rec("pub.add.err", name, err.Error(), 0, 0, 0)
+			continue
+		}
+		simrt.Touch(res2.Path)
+		simrt.Rec("pub.add.ret", name, a.Path, 1, simrt.ObjID(res2.Path), int64(p.id[1]))
+		late := a.LateWrites
+		for i := int64(0); i < op.N; i++ {
+			if p.closed.Fired() {
+				if late <= 0 {
+					break
+				}
+				late--
+			}
+			select {
+			case <-time.After(time.Duration(op.Ms) * time.Millisecond):
+			case <-p.closed.C():
+			}
+			fm := int(serial % 2)
+			w1WriteUnit(res2.SubStream, desc, name, int64(idx), fm, serial, serial*160)
+			serial++
+		}
+		simrt.Rec("pub.remove.call", name, a.Path, 0, 0, 0)
+		res2.Path.RemovePublisher(defs.PathRemovePublisherReq{Author: p})
+		simrt.Rec("pub.remove.ret", name, a.Path, 0, 0, 0)
+	}
+}
+
+var w1DelayTable = []int64{0, 1, 20, 300, 0, 1500, 5, 0}
+
+// ---- reader actor
+
+type w1Reader struct {
+	h      *w1Harness
+	name   string
+	id     uuid.UUID
+	hidden bool
+	closed *simrt.Signal
+}
+
+func (r *w1Reader) Log(level logger.Level, format string, args ...any) {}
+func (r *w1Reader) Close() {
+	simrt.Rec("rd.close", r.name, "", 0, 0, 0)
+	r.closed.Fire()
+}
+func (r *w1Reader) APIReaderDescribe() *defs.APIPathReader {
+	if r.hidden {
+		return &defs.APIPathReader{Type: defs.APIPathReaderTypeHidden, ID: ""}
+	}
+	return &defs.APIPathReader{Type: defs.APIPathReaderTypeRTMPConn, ID: r.id.String()}
+}
+
+func (h *w1Harness) runReader(idx int, a *w1Actor) {
+	base := fmt.Sprintf("rd%d", idx)
+	time.Sleep(time.Duration(a.StartMs) * time.Millisecond)
+	for si, op := range a.Ops {
+		if simrt.Aborted() {
+			return
+		}
+		if op.Op == "sleep" {
+			time.Sleep(time.Duration(op.Ms) * time.Millisecond)
+			continue
+		}
+		name := fmt.Sprintf("%s.%d", base, si)
+		r := &w1Reader{h: h, name: name, id: w1UUID(2, idx*8+si), closed: simrt.NewSignal()}
+		simrt.Touch(r)
+		ar := h.accessReq(a, &r.id, false)
+		if a.Shape == "rtsp" {
+			simrt.Rec("desc.call", name, a.Path, 0, 0, 0)
+			dres, err := h.pm.Describe(defs.PathDescribeReq{Author: r, AccessRequest: ar})
+			if err != nil || dres.Stream == nil {
+				simrt.Rec("desc.ret", name, w1ErrText(err), 0, 0, 0)
+				continue
+			}
+			simrt.Rec("desc.ret", name, "", 1, 0, 0)
+			time.Sleep(time.Duration(w1DelayTable[(idx+si+3)%len(w1DelayTable)]) * time.Millisecond)
+		}
+		admitted := h.readerSession(name, r, a, ar, op, 0)
+		if a.Shape == "hls" && !simrt.Aborted() {
+			// the HLS muxer of the path attaches as a hidden reader without credentials,
+			// only after an authenticated session flow for the same name
+			hr := &w1Reader{h: h, name: name + ".mux", id: w1UUID(3, idx*8+si), hidden: true, closed: simrt.NewSignal()}
+			simrt.Touch(hr)
+			if admitted {
+				h.readerSession(name+".mux", hr, a, defs.PathAccessRequest{Name: a.Path, SkipAuth: true}, w1Op{Ms: op.Ms / 2}, 1)
+			}
+		}
+	}
+}
+
+func w1ErrText(err error) string {
+	if err == nil {
+		return ""
+	}
+	return err.Error()
+}
+
+func (h *w1Harness) readerSession(name string, r *w1Reader, a *w1Actor, ar defs.PathAccessRequest, op w1Op, skip int64) bool {
+	simrt.Rec("rd.add.call", name, a.Path, skip, 0, 0)
+	res, err := h.pm.AddReader(defs.PathAddReaderReq{Author: r, AccessRequest: ar})
+	if err != nil {
+		simrt.Rec("rd.add.ret", name, a.Path, 0, 0, 0)
+		simrt.Rec("rd.add.err", name, err.Error(), 0, 0, 0)
+		return false
+	}
+	simrt.Touch(res.Path)
+	simrt.Touch(res.Stream)
+	if res.Stream == nil {
+		simrt.Violate("C19", "success-without-stream", "AddReader of %s on %s returned no error and no stream", name, a.Path)
+		return true
+	}
+	simrt.Rec("rd.add.ret", name, a.Path, 1, simrt.ObjID(res.Path), simrt.ObjID(res.Stream))
+	simrt.Rec("rd.conf", name, a.Path, int64(res.Path.SafeConf().MaxReaders), simrt.ObjID(res.Path), 0)
+
+	sr := &stream.Reader{Parent: r}
+	count := int64(0)
+	sub := map[int]bool{}
+	for _, fm := range a.Formats {
+		sub[fm] = true
+	}
+	for fm := 0; fm < 2; fm++ {
+		if !sub[fm] {
+			continue
+		}
+		fm := fm
+		medi := res.Stream.OrigDesc.Medias[fm]
+		sr.OnData(medi, medi.Formats[0], func(u *unit.Unit) error {
+			var pl []byte
+			switch v := u.Payload.(type) {
+			case unit.PayloadG711:
+				pl = v
+			case unit.PayloadLPCM:
+				pl = v
+			}
+			if len(pl) != 8 {
+				simrt.Violate("C17", "payload-modified", "reader %s got a payload of %d bytes on format %d", name, len(pl), fm)
+				return nil
+			}
+			pub := int64(pl[0])
+			serial := int64(pl[2])<<24 | int64(pl[3])<<16 | int64(pl[4])<<8 | int64(pl[5])
+			want := w1Payload(pub, int(pl[1]), serial)
+			if string(want) != string(pl) {
+				simrt.Violate("C17", "payload-modified", "reader %s got payload %x", name, pl)
+			}
+			simrt.Rec("rd.data", name, "", serial, int64(pl[1]), pub)
+			if int(pl[1]) != fm {
+				simrt.Violate("C17", "wrong-format", "reader %s callback of format %d got a unit of format %d", name, fm, pl[1])
+			}
+			count++
+			if a.SlowMs > 0 && skip == 0 {
+				time.Sleep(time.Duration(a.SlowMs) * time.Millisecond)
+			}
+			if a.FailAt > 0 && count == a.FailAt && skip == 0 {
+				return fmt.Errorf("simulated write error")
+			}
+			return nil
+		})
+	}
+	res.Stream.AddReader(sr)
+	simrt.Rec("rd.sadd.ret", name, a.Path, 0, 0, 0)
+
+	// duplicate adds while attached
+	for i := int64(0); i < op.N && skip == 0; i++ {
+		time.Sleep(time.Duration(op.Ms/4) * time.Millisecond)
+		if r.closed.Fired() {
+			break
+		}
+		simrt.Rec("rd.readd.call", name, a.Path, 0, 0, 0)
+		res2, err2 := h.pm.AddReader(defs.PathAddReaderReq{Author: r, AccessRequest: ar})
+		simrt.Rec("rd.readd.ret", name, w1ErrText(err2), 0, 0, 0)
+		if err2 == nil && r.closed.Fired() {
+			// the path closed this reader while the second request was in flight: the
+			// request has attached it again (possibly to a new path); leave at once
+			simrt.Rec("rd.readd.undo", name, a.Path, 0, 0, 0)
+			res2.Path.RemoveReader(defs.PathRemoveReaderReq{Author: r})
+			break
+		}
+	}
+
+	select {
+	case <-r.closed.C():
+	case <-sr.Error():
+		simrt.Rec("rd.err", name, "", 0, 0, 0)
+	case <-time.After(time.Duration(op.Ms) * time.Millisecond):
+	}
+	simrt.Rec("rd.srem.call", name, a.Path, 0, 0, 0)
+	res.Stream.RemoveReader(sr)
+	simrt.Rec("rd.srem.ret", name, a.Path, int64(sr.OutboundFramesDiscarded()), 0, 0)
+	simrt.Rec("rd.premove.call", name, a.Path, 0, 0, 0)
+	res.Path.RemoveReader(defs.PathRemoveReaderReq{Author: r})
+	simrt.Rec("rd.premove.ret", name, a.Path, 0, 0, 0)
+	return true
+}
+
+// ---- describe actor
+
+type w1Nobody struct{}
+
+func (w1Nobody) Log(level logger.Level, format string, args ...any) {}
+
+func (h *w1Harness) runDesc(idx int, a *w1Actor) {
+	name := fmt.Sprintf("desc%d", idx)
+	time.Sleep(time.Duration(a.StartMs) * time.Millisecond)
+	for si, op := range a.Ops {
+		if simrt.Aborted() {
+			return
+		}
+		time.Sleep(time.Duration(op.Ms) * time.Millisecond)
+		id := w1UUID(4, idx*8+si)
+		simrt.Rec("desc.call", name, a.Path, 0, 0, 0)
+		res, err := h.pm.Describe(defs.PathDescribeReq{Author: w1Nobody{}, AccessRequest: h.accessReq(a, &id, false)})
+		switch {
+		case err != nil:
+			simrt.Rec("desc.ret", name, err.Error(), 0, 0, 0)
+		case res.Redirect != "":
+			simrt.Rec("desc.ret", name, "", 2, 0, 0)
+		case res.Stream != nil:
+			simrt.Rec("desc.ret", name, "", 1, 0, 0)
+		default:
+			simrt.Rec("desc.ret", name, "", 3, 0, 0)
+			simrt.Violate("C19", "success-without-stream", "Describe of %s on %s returned neither error, stream nor redirect", name, a.Path)
+		}
+	}
+}
+
+// ---- reload actor
+
+func (h *w1Harness) snapshot(tag string, n int64) {
+	req := pathAPIPathsListReq{res: make(chan pathAPIPathsListRes)}
+	select {
+	case h.pm.chAPIPathsList <- req:
+		res := <-req.res
+		names := make([]string, 0, len(res.paths))
+		for k := range res.paths {
+			names = append(names, k)
+		}
+		sort.Strings(names)
+		for _, k := range names {
+			pa := res.paths[k]
+			simrt.Touch(pa)
+			simrt.Rec("snap."+tag, k, pa.SafeConf().Name, n, simrt.ObjID(pa), 0)
+			simrt.Rec("fwd.obs", k, w1FwdString(pa.APIForwardDestList()), simrt.ObjID(pa), 0, 0)
+		}
+	case <-h.pm.ctx.Done():
+	}
+}
+
+func (h *w1Harness) runReload(idx int, a *w1Actor) {
+	time.Sleep(time.Duration(a.StartMs) * time.Millisecond)
+	for ri, op := range a.Ops {
+		if simrt.Aborted() {
+			return
+		}
+		time.Sleep(time.Duration(op.Ms) * time.Millisecond)
+		v := h.versions[op.N]
+		cl := v.conf.Clone()
+		if err := cl.Validate(nil); err != nil {
+			simrt.Violate("!", "infra-conf", "validate clone: %v", err)
+			return
+		}
+		h.snapshot("before", int64(ri))
+		simrt.Rec("reload.call", "", "", op.N, int64(ri), 0)
+		h.pm.ReloadPathConfs(cl.Paths)
+		simrt.Rec("reload.ret", "", "", op.N, int64(ri), 0)
+		h.snapshot("after", int64(ri))
+		h.authm.ReloadInternalUsers(cl.AuthInternalUsers)
+		simrt.Rec("users.ret", "", "", op.N, int64(ri), 0)
+		h.lastConfs = cl.Paths
+	}
+}
+
+// ---- API actor
+
+func (h *w1Harness) runAPI(idx int, a *w1Actor) {
+	time.Sleep(time.Duration(a.StartMs) * time.Millisecond)
+	for _, op := range a.Ops {
+		if simrt.Aborted() {
+			return
+		}
+		time.Sleep(time.Duration(op.Ms) * time.Millisecond)
+		switch op.Op {
+		case "list":
+			l, err := h.pm.APIPathsList()
+			if err == nil {
+				for _, it := range l.Items {
+					h.recAPIPath(&it)
+				}
+			}
+		case "get":
+			it, err := h.pm.APIPathsGet("s1")
+			if err == nil {
+				h.recAPIPath(it)
+			}
+		default:
+			h.snapshot("poll", -1)
+		}
+	}
+}
+
+func (h *w1Harness) recAPIPath(it *defs.APIPath) {
+	src := ""
+	if it.Source != nil {
+		src = string(it.Source.Type) + ":" + it.Source.ID
+	}
+	av := int64(0)
+	if it.Available {
+		av = 1
+	}
+	simrt.Rec("api.path", it.Name, it.ConfName+"|"+src, int64(len(it.Readers)), av, 0)
+}
+
+func w1FwdString(l *defs.APIForwardDestList) string {
+	var sb []string
+	for _, it := range l.Items {
+		sb = append(sb, fmt.Sprintf("%d=%s=%s=%s", it.Pos, it.Conf.Dest, it.ID.String()[:8], it.State))
+	}
+	return strings.Join(sb, ",")
+}
+
+// ---- simulated pulled source
+
+func (h *w1Harness) srcRun(s *ssrtp.Source, params defs.StaticSourceRunParams) error {
+	tag := strings.TrimPrefix(params.Conf.RTPSDP, "simsrc ")
+	inst := h.nextSrc.Add(1)
+	simrt.Rec("src.run", tag, "", inst, 0, 0)
+	defer simrt.Rec("src.exit", tag, "", inst, 0, 0)
+	d := []time.Duration{0, 10 * time.Millisecond, 300 * time.Millisecond, 2 * time.Second, 20 * time.Second}[simrt.Choose("src.delay", 5)]
+	select {
+	case <-time.After(d):
+	case <-params.Context.Done():
+		return fmt.Errorf("terminated")
+	}
+	if simrt.Flip("src.dialfail", h.body.SrcDialP) {
+		simrt.Count("fault.src.dialfail", 1)
+		return fmt.Errorf("sim: connection refused")
+	}
+	desc := h.mkDesc()
+	simrt.Rec("src.ready.call", tag, "", inst, 0, 0)
+	res := s.Parent.SetReady(defs.PathSourceStaticSetReadyReq{Desc: desc, UseRTPPackets: false, ReplaceNTP: true})
+	if res.Err != nil {
+		simrt.Rec("src.ready.ret", tag, res.Err.Error(), inst, 0, 0)
+		return res.Err
+	}
+	simrt.Rec("src.ready.ret", tag, "", inst, 1, 0)
+	defer func() {
+		simrt.Rec("src.notready.call", tag, "", inst, 0, 0)
+		s.Parent.SetNotReady(defs.PathSourceStaticSetNotReadyReq{})
+		simrt.Rec("src.notready.ret", tag, "", inst, 0, 0)
+	}()
+	pub := 100 + inst%100
+	for i := int64(0); ; i++ {
+		var tick <-chan time.Time
+		if i < 24 {
+			tick = time.After(250 * time.Millisecond)
+		}
+		select {
+		case <-params.Context.Done():
+			return fmt.Errorf("terminated")
+		case <-params.ReloadConf:
+			simrt.Rec("src.reload", tag, "", inst, 0, 0)
+			continue
+		case <-tick:
+		}
+		if simrt.Flip("src.fail", h.body.SrcFailP) {
+			simrt.Count("fault.src.fail", 1)
+			return fmt.Errorf("sim: read error")
+		}
+		w1WriteUnit(res.SubStream, desc, fmt.Sprintf("src%d", inst), pub, int(i%2), i, i*160)
+	}
+}
+
+// ---- simulated forwarder
+
+func (h *w1Harness) fwdRun(d *fwrtmp.Dest, ctx context.Context) error {
+	inst := h.fwdSeq.Add(1)
+	simrt.Rec("fwd.run", d.Dest, "", inst, 0, 0)
+	defer simrt.Rec("fwd.exit", d.Dest, "", inst, 0, 0)
+	if simrt.Flip("fwd.dialfail", h.body.FwdFailP) {
+		simrt.Count("fault.fwd.dialfail", 1)
+		select {
+		case <-time.After(100 * time.Millisecond):
+		case <-ctx.Done():
+		}
+		return fmt.Errorf("sim: dial error")
+	}
+	var fail <-chan time.Time
+	if simrt.Flip("fwd.latefail", h.body.FwdFailP/2) {
+		simrt.Count("fault.fwd.latefail", 1)
+		fail = time.After(2 * time.Second)
+	}
+	select {
+	case <-ctx.Done():
+		if simrt.Flip("fwd.slowstop", 0.2) {
+			time.Sleep(500 * time.Millisecond)
+		}
+		return fmt.Errorf("terminated")
+	case <-fail:
+		return fmt.Errorf("sim: write error")
+	}
+}
+
+// ---- simulated hook processes
+
+func (h *w1Harness) procRun(cmdstr string, env externalcmd.Environment, terminate chan struct{}) (int, bool) {
+	kind := strings.TrimPrefix(cmdstr, "simhook ")
+	pathName := env["MTX_PATH"]
+	inst := h.procSeq.Add(1)
+	simrt.Rec("proc.start", kind, pathName, inst, 0, 0)
+	switch kind {
+	case "undemand", "unavail", "offline":
+		select {
+		case <-time.After(20 * time.Millisecond):
+		case <-terminate:
+			simrt.Rec("proc.term", kind, pathName, inst, 0, 0)
+			return 0, true
+		}
+		simrt.Rec("proc.exit", kind, pathName, inst, 0, 0)
+		return 0, false
+	}
+	var early <-chan time.Time
+	code := 0
+	if simrt.Flip("proc.early", h.body.HookExitP) {
+		simrt.Count("fault.proc.early", 1)
+		early = time.After([]time.Duration{time.Millisecond, 300 * time.Millisecond, 4 * time.Second}[simrt.Choose("proc.when", 3)])
+		code = simrt.Choose("proc.code", 2)
+	}
+	if kind == "demand" {
+		// the on-demand command publishes to the path, like an ffmpeg would
+		done := make(chan struct{})
+		stop := simrt.NewSignal()
+		go h.demandPublisher(pathName, inst, stop, done)
+		defer func() {
+			stop.Fire()
+			<-done
+		}()
+	}
+	select {
+	case <-terminate:
+		simrt.Rec("proc.term", kind, pathName, inst, 0, 0)
+		return 0, true
+	case <-early:
+		simrt.Rec("proc.exit", kind, pathName, inst, int64(code), 0)
+		return code, false
+	}
+}
+
+func (h *w1Harness) demandPublisher(pathName string, inst int64, stop *simrt.Signal, done chan struct{}) {
+	defer close(done)
+	name := fmt.Sprintf("dpub%d", inst)
+	d := []time.Duration{0, 20 * time.Millisecond, 500 * time.Millisecond, 4 * time.Second, 30 * time.Second}[simrt.Choose("dpub.delay", 5)]
+	select {
+	case <-time.After(d):
+	case <-stop.C():
+		return
+	}
+	p := &w1Pub{h: h, idx: 200 + int(inst), name: name, id: w1UUID(5, int(inst)), closed: simrt.NewSignal()}
+	simrt.Touch(p)
+	desc := h.mkDesc()
+	simrt.Rec("pub.add.call", name, pathName, 1, 0, 0)
+	res, err := h.pm.AddPublisher(defs.PathAddPublisherReq{
+		Author: p, Desc: desc, ReplaceNTP: true,
+		AccessRequest: defs.PathAccessRequest{Name: pathName, Publish: true, SkipAuth: true},
 	})
-	fmt.Printf("%+v\n", res)
+	if err != nil {
+		simrt.Rec("pub.add.ret", name, pathName, 0, 0, 0)
+		return
+	}
+	simrt.Touch(res.Path)
+	simrt.Rec("pub.add.ret", name, pathName, 1, simrt.ObjID(res.Path), 0)
+	for i := int64(0); i < 16; i++ {
+		select {
+		case <-time.After(250 * time.Millisecond):
+		case <-stop.C():
+		case <-p.closed.C():
+		}
+		if stop.Fired() || p.closed.Fired() {
+			break
+		}
+		w1WriteUnit(res.SubStream, desc, name, int64(200+inst%50), int(i%2), i, i*160)
+	}
+	select {
+	case <-stop.C():
+	case <-p.closed.C():
+	}
+	simrt.Rec("pub.remove.call", name, pathName, 0, 0, 0)
+	res.Path.RemovePublisher(defs.PathRemovePublisherReq{Author: p})
+	simrt.Rec("pub.remove.ret", name, pathName, 0, 0, 0)
+}
+
+// ---- main
+
+func (h *w1Harness) main() {
+	dir, err := os.MkdirTemp("", "w1-")
+	if err != nil {
+		simrt.Violate("!", "infra", "mkdtemp: %v", err)
+		return
+	}
+	h.dir = dir
+	defer os.RemoveAll(dir)
+	if err = h.loadVersions(); err != nil {
+		simrt.Violate("!", "infra-conf", "%v", err)
+		return
+	}
+	externalcmd.SimRun = h.procRun
+	ssrtp.SimRun = h.srcRun
+	fwrtmp.SimRun = h.fwdRun
+
+	c0 := h.versions[0].conf.Clone()
+	if err = c0.Validate(nil); err != nil {
+		simrt.Violate("!", "infra-conf", "validate clone: %v", err)
+		return
+	}
+	h.authm = &auth.Manager{Method: conf.AuthMethodInternal, InternalUsers: c0.AuthInternalUsers, ReadTimeout: 10 * time.Second}
+	h.pool = &externalcmd.Pool{}
+	h.pool.Initialize()
+	h.lastConfs = c0.Paths
+	h.pm = &pathManager{
+		logLevel:          conf.LogLevel(logger.Debug),
+		rtspAddress:       ":8554",
+		readTimeout:       c0.ReadTimeout,
+		writeTimeout:      c0.WriteTimeout,
+		writeQueueSize:    c0.WriteQueueSize,
+		udpReadBufferSize: c0.UDPReadBufferSize,
+		udpMaxPayloadSize: c0.UDPMaxPayloadSize,
+		rtpMaxPayloadSize: 1400,
+		pathConfs:         c0.Paths,
+		authManager:       &w1AuthProxy{m: h.authm},
+		externalCmdPool:   h.pool,
+		parent:            h,
+	}
+	h.pm.initialize()
+	simrt.Rec("init.done", "", "", 0, 0, 0)
+	// which (name, version, version) triples resolve to equal configurations
+	seenName := map[string]bool{}
+	for _, a := range h.body.Actors {
+		if a.Path == "" || seenName[a.Path] {
+			continue
+		}
+		seenName[a.Path] = true
+		for i := range h.versions {
+			for j := range h.versions {
+				ci, _, e1 := conf.FindPathConf(h.versions[i].paths, a.Path)
+				cj, _, e2 := conf.FindPathConf(h.versions[j].paths, a.Path)
+				if e1 == nil && e2 == nil {
+					eq := int64(0)
+					if ci.Equal(cj) {
+						eq = 1
+					}
+					simrt.Rec("confeq", a.Path, "", int64(i), int64(j), eq)
+				}
+			}
+		}
+	}
+
+	var wg sync.WaitGroup
+	for i := range h.body.Actors {
+		a := &h.body.Actors[i]
+		i := i
+		wg.Add(1)
+		switch a.Kind {
+		case "pub":
+			go func() { defer wg.Done(); h.runPub(i, a) }()
+		case "rd":
+			go func() { defer wg.Done(); h.runReader(i, a) }()
+		case "desc":
+			go func() { defer wg.Done(); h.runDesc(i, a) }()
+		case "reload":
+			go func() { defer wg.Done(); h.runReload(i, a) }()
+		case "api":
+			go func() { defer wg.Done(); h.runAPI(i, a) }()
+		default:
+			wg.Done()
+		}
+	}
+	wg.Wait()
+	simrt.Rec("actors.done", "", "", 0, 0, 0)
+	if simrt.Aborted() {
+		return
+	}
+	time.Sleep(time.Duration(h.body.TailMs) * time.Millisecond)
+	simrt.Rec("epilogue", "", "", 0, 0, 0)
+	h.finalChecks()
+	simrt.Rec("shutdown.call", "", "", 0, 0, 0)
+	h.pm.close()
+	h.pool.Close()
+	simrt.Rec("shutdown.ret", "", "", 0, 0, 0)
+}
+
+// finalChecks compares the live paths with the configuration passed to the
+// last reload (C15) and the forward lists with the configured ones (C39).
+func (h *w1Harness) finalChecks() {
+	req := pathAPIPathsListReq{res: make(chan pathAPIPathsListRes)}
+	h.pm.chAPIPathsList <- req
+	res := <-req.res
+	names := make([]string, 0, len(res.paths))
+	for k := range res.paths {
+		names = append(names, k)
+	}
+	sort.Strings(names)
+	cnames := make([]string, 0, len(h.lastConfs))
+	for k := range h.lastConfs {
+		cnames = append(cnames, k)
+	}
+	sort.Strings(cnames)
+	for _, cn := range cnames {
+		pc := h.lastConfs[cn]
+		if pc.Regexp == nil {
+			if _, ok := res.paths[cn]; !ok {
+				simrt.Violate("C15", "static-path-missing", "static configuration %q has no live path after the last reload", cn)
+			}
+		}
+	}
+	for _, n := range names {
+		pa := res.paths[n]
+		want, wantMatches, err := conf.FindPathConf(h.lastConfs, n)
+		if err != nil {
+			simrt.Violate("C15", "orphan-path", "live path %q does not resolve to any configuration: %v", n, err)
+			continue
+		}
+		got := pa.SafeConf()
+		if !got.Equal(want) {
+			simrt.Violate("C15", "stale-conf", "live path %q runs with configuration %q (forward=%v maxReaders=%d) but resolution selects %q (forward=%v maxReaders=%d)",
+				n, got.Name, got.Forward, got.MaxReaders, want.Name, want.Forward, want.MaxReaders)
+		}
+		// capture groups are the sub-matches (index 0 is the whole name)
+		gotG, wantG := []string{}, []string{}
+		if len(pa.matches) > 1 {
+			gotG = pa.matches[1:]
+		}
+		if len(wantMatches) > 1 {
+			wantG = wantMatches[1:]
+		}
+		if fmt.Sprint(gotG) != fmt.Sprint(wantG) {
+			simrt.Violate("C15", "stale-matches", "live path %q has capture groups %q but resolution selects %q (conf %q)",
+				n, pa.matches, wantMatches, want.Name)
+		}
+		// forward list of the path vs configuration
+		l := pa.APIForwardDestList()
+		if len(l.Items) != len(want.Forward) {
+			simrt.Violate("C39", "fwd-list-mismatch", "path %q lists %d forward destinations, configuration has %d", n, len(l.Items), len(want.Forward))
+			continue
+		}
+		for i, it := range l.Items {
+			if it.Conf != want.Forward[i] || it.Pos != i+1 {
+				simrt.Violate("C39", "fwd-list-mismatch", "path %q forward entry %d is %+v pos %d, configuration has %+v", n, i, it.Conf, it.Pos, want.Forward[i])
+			}
+		}
+		simrt.Rec("final.path", n, got.Name, int64(len(l.Items)), simrt.ObjID(pa), 0)
+	}
+}
+
+// Run executes one scenario.
+func (w *w1World) Run(t *testing.T, sc *simrt.Scenario, cfg simrt.Config) simrt.Outcome {
+	var body w1Body
+	if err := json.Unmarshal(sc.Body, &body); err != nil {
+		return simrt.Outcome{Violations: []simrt.Violation{{Property: "!", Clause: "bad-scenario", Detail: err.Error()}}}
+	}
+	h := &w1Harness{body: &body, prop: sc.Property}
+	res := simrt.Run(t, cfg, h.main)
+	out := simrt.Outcome{Res: res}
+	out.Violations = append(out.Violations, res.Violations...)
+	if !res.StepCap {
+		out.Violations = append(out.Violations, w1Oracles(&body, &res, cfg)...)
+	}
+	out.Nontrivial, out.Abstract = w1Classify(&body, &res, sc.Property)
+	return out
 }
